@@ -454,9 +454,9 @@ func runExchange(t *verifsim.Tape, cfg engine.Config, prop string) *engine.Outco
 	if !faulty && !dropRun && (prop == "C04" || prop == "C14") && t.Draw("rewrite-run", 2) == 0 {
 		// the JSON body is edited on the wire: members dropped or nulled at any depth, values retyped, integers
 		// pushed out of range (rewrite.go)
-		kinds := []string{"drop", "drop", "null", "retype", "retype", "overflow"}
+		kinds := []string{"drop", "drop", "null", "retype", "retype", "overflow", "extra"}
 		if prop == "C14" {
-			kinds = []string{"drop", "drop", "retype"}
+			kinds = []string{"drop", "drop", "retype", "extra"}
 		}
 		ncfg.RewriteBodyRate = 600
 		ncfg.RewriteBody = func(body []byte) []byte {
